@@ -250,6 +250,13 @@ func (c *stepCtx) expectAccept() (bool, bool) {
 		mi := sn.msgs[o.a]
 		// the size in bits must be representable in an int; then the last signal must still fit
 		return o.z >= 0 && (o.z == mi.bytes || (o.z <= math.MaxInt64/8 && sn.lastEnd(mi.lay) <= o.z*8)), true
+	case "resizebus":
+		if o.a >= nM {
+			return false, false
+		}
+		mi := sn.msgs[o.a]
+		// as above, and the bus of the sender interface admits at most o.b bytes
+		return o.z >= 0 && (o.z == mi.bytes || (o.z <= o.b && sn.lastEnd(mi.lay) <= o.z*8)), true
 	case "settype":
 		if o.a >= nS || c.w.sigs[o.a].Kind() != acmelib.SignalKindStandard || o.z < 1 {
 			return false, false
@@ -641,6 +648,7 @@ func (c *stepCtx) checkMembership() []failure {
 func (c *stepCtx) checkMessageView() []failure {
 	var fs []failure
 	pst := c.pst
+	treeOf := map[int]map[int]bool{}
 	for m, mi := range pst.msgs {
 		reach := map[int]bool{}
 		var walk func(x int, depth int)
@@ -676,6 +684,72 @@ func (c *stepCtx) checkMessageView() []failure {
 			if !reach[x] {
 				fs = append(fs, failure{"view-stale", fmt.Sprintf("M%d.GetSignal finds signal %d which is not in its layout tree", m, x)})
 			}
+		}
+		// the name table of the message: exactly the current names of the signals of its tree
+		named := map[int]bool{}
+		for _, x := range mi.names {
+			if x < 0 {
+				fs = append(fs, failure{"view-names", fmt.Sprintf("M%d.SignalNames lists a name that no signal carries any more", m)})
+			}
+			named[x] = true
+		}
+		for x := range reach {
+			if !named[x] {
+				fs = append(fs, failure{"view-names", fmt.Sprintf("signal %d is in the layout tree of M%d but its name %q is not in M%d.SignalNames", x, m, c.w.sigs[x].Name(), m)})
+			}
+		}
+		for x := range named {
+			if x >= 0 && !reach[x] {
+				fs = append(fs, failure{"view-names", fmt.Sprintf("M%d.SignalNames lists the name of signal %d which is not in its layout tree", m, x)})
+			}
+		}
+		treeOf[m] = reach
+	}
+	// the name table of every multiplexer (observed through the names it refuses): the current names
+	// of its own signals and, when it is attached, of the signals of the owning message
+	for u, mi := range pst.mux {
+		want := map[int]bool{}
+		for _, r := range mi.runs {
+			for _, y := range r.hs {
+				if y >= 0 {
+					want[y] = true
+				}
+			}
+		}
+		if pm := pst.sigs[u].pm; pm >= 0 && pm < len(pst.msgs) {
+			for x := range treeOf[pm] {
+				want[x] = true
+			}
+		}
+		got := map[int]bool{}
+		for _, x := range mi.taken {
+			if x < 0 {
+				fs = append(fs, failure{"view-muxnames", fmt.Sprintf("multiplexer %d still refuses a name that no signal carries any more (stale entry in its name table)", u)})
+				continue
+			}
+			got[x] = true
+			if !want[x] {
+				fs = append(fs, failure{"view-muxnames", fmt.Sprintf("multiplexer %d refuses the name of signal %d, which is neither one of its signals nor in its message", u, x)})
+			}
+		}
+		for x := range want {
+			if !got[x] {
+				fs = append(fs, failure{"view-muxnames", fmt.Sprintf("multiplexer %d would accept a second signal named %q (signal %d is missing in its name table)", u, c.w.sigs[x].Name(), x)})
+			}
+		}
+	}
+	return fs
+}
+
+// the payload a message works with is the one it reports: a 1-bit probe at bit 8*SizeByte() must
+// be refused (the layout size itself is not observable through the API)
+func (w *world) checkLayoutSize() []failure {
+	var fs []failure
+	for i, m := range w.msgs {
+		p := w.probe("probe_payload_end")
+		if err := m.InsertSignal(p, m.SizeByte()*8); err == nil {
+			fs = append(fs, failure{"layout-size", fmt.Sprintf("M%d reports %d byte(s) but accepts a signal at bit %d: its layout is larger than its payload", i, m.SizeByte(), m.SizeByte()*8)})
+			_ = m.RemoveSignal(p.EntityID())
 		}
 	}
 	return fs
